@@ -403,8 +403,13 @@ class Ledger(metaclass=LedgerRegistry):
                 # Nothing to do, network thinks we're already at the latest height.
                 return
 
+            replaces_stored_headers = height < len(self.headers)
             added = await self.headers.connect(height, unhexlify(headers))
             if added > 0:
+                if replaces_stored_headers:
+                    # stored headers were overwritten without a rewind (a one block reorganization announced by a
+                    # subscription update links to its stored parent): what was verified against them is stale
+                    self._tx_cache.clear()
                 height += added
                 self._on_header_controller.add(
                     BlockHeightEvent(self.headers.height, added))
